@@ -61,6 +61,7 @@ Seal(rk, iv, aad, p, t) == M!Seal(rk, iv, aad, p, t)
 Open(rk, iv, aad, ct, t) == M!Open(rk, iv, aad, ct, t)
 Decrypted(rk, iv, ct, t) == M!Decrypted(rk, iv, ct, t)
 SealZeroAad(rk, iv, nz, p, t) == M!SealZeroAad(rk, iv, nz, p, t)
+SealZeroIv(rk, nz, aad, p, t) == M!SealZeroIv(rk, nz, aad, p, t)
 
 \* ---- published vectors
 \* GCM specification (McGrew, Viega) test case 2: X1 = C * H
